@@ -640,6 +640,9 @@ fn validate_entry<S: ranger::Store<SignedEntry> + PublicKeyStore>(
     if entry.timestamp() > now + MAX_TIMESTAMP_FUTURE_SHIFT {
         return Err(ValidationFailure::TooFarInTheFuture);
     }
+
+    // Verify that the entry is either a proper deletion marker or a proper non-empty record.
+    entry.validate_empty()?;
     Ok(())
 }
 
